@@ -2,7 +2,7 @@
 //
 // The non-template part (operation table, argument grids, case generators, modes) lives in
 // fixed_string.cpp; this header holds the per-capacity executor SessionImpl<L>, which is
-// instantiated for groups of capacities in fixed_string_g1..g4.cpp (compile time).
+// instantiated for groups of capacities in fixed_string_g01..g10.cpp (compile time).
 //
 // One executor serves both properties:
 //   * C10 (oracle off): arguments out of domain; after every call the structural invariant
@@ -50,7 +50,9 @@ enum Role : uint8_t
    R_CNT,    // count of characters of this string
    R_SPOS,   // position in the source
    R_SCNT,   // count of source characters, clamped by the callee (npos = rest)
-   R_SARR,   // count that describes the extent of a character array (ptr, count)
+   R_SARR,   // count of a (pointer, count) pair handed to a mutator: the array holds min(count, L+1) characters
+             // at least - more cannot be stored, so a correct implementation never reads further
+   R_TARR,   // count of a (pointer, count) pair that is read completely (find_first_of ...): true array extent
    R_REP,    // number of repetitions of a character
    R_IT,     // iterator into this string, given as offset from begin() (>= length: end())
    R_SIT,    // iterator into the source, given as offset
@@ -115,6 +117,7 @@ struct Ctx
    bool verbose = false;
    bool describe = true;   // write a progress descriptor before every call
    std::vector<uint64_t> opCount;   // per OpDef::index
+   uint64_t nCalls = 0, nJudgedMut = 0, nJudgedObs = 0, nExceptions = 0, nTrunc = 0;   // hot counters
 };
 
 /// interface between the generators (non-template) and the executor (per capacity)
@@ -188,7 +191,7 @@ template <size_t S> struct FsBlock
    explicit FsBlock(const std::string& text)
    {
       void* m = malloc(sizeof(FixedString<S>));
-      f = new (m) FixedString<S>(text.c_str());
+      f = new (m) FixedString<S>(text);   // std::string constructor: keeps embedded NUL characters
    }
    ~FsBlock() { f->~FixedString<S>(); free(f); }
    FsBlock(const FsBlock&) = delete;
@@ -277,7 +280,7 @@ public:
    {
       cur = &c;
       if (ctx.describe) describe(c);
-      ctx.out->stat("calls");
+      ++ctx.nCalls;
       ++ctx.opCount[c.def->index];
       threw = false;
       try
@@ -288,7 +291,7 @@ public:
       {
          // an exception that left a public member which is not noexcept (at(), iterators)
          threw = true;
-         ctx.out->stat("exceptions");
+         ++ctx.nExceptions;
          if (ctx.oracle && expectNoThrow)
             fail("unexpected-exception", std::string(e.what()));
       }
@@ -309,6 +312,7 @@ private:
    bool guarded = false;
    std::string ref;          // C11 reference (also kept in C10 mode as "last observed content")
    bool nulStored = false;
+   bool srcHasNul = false;
    bool isBroken = false;
    bool threw = false;
    bool expectNoThrow = true;
@@ -363,16 +367,63 @@ private:
    {
       ctx.out->viol(cur->def->family + "|" + kind, where() + " : " + detail);
    }
+   static char* putStr(char* p, char* end, const char* t, size_t n)
+   {
+      if (n > size_t(end - p)) n = size_t(end - p);
+      memcpy(p, t, n);
+      return p + n;
+   }
+   static char* putNum(char* p, char* end, size_t v)
+   {
+      if (v == NPOS) return putStr(p, end, "npos", 4);
+      if (v == NPOS - 1) return putStr(p, end, "npos-1", 6);
+      char tmp[24];
+      int k = 0;
+      do { tmp[k++] = char('0' + v % 10); v /= 10; } while (v);
+      while (k > 0 && p < end) *p++ = tmp[--k];
+      return p;
+   }
+   /// progress descriptor "<family> <name> L=.. len=.. [content] args=.. ch=.. src(n)=[..]" (hot path: no printf)
    void describe(const Call& c)
    {
-      char buf[512];
-      int n = snprintf(buf, sizeof buf, "%s %s L=%zu len=%zu [%s] args=", c.def->family.c_str(), c.def->name.c_str(), L, ref.size(), shortText(ref).c_str());
-      for (unsigned i = 0; i < c.def->nargs && n < (int)sizeof buf - 40; ++i)
-         n += snprintf(buf + n, sizeof buf - n, "%s%s", i ? "," : "", numstr(c.a[i]).c_str());
-      if ((c.def->flags & OF_CH) && n < (int)sizeof buf - 40) n += snprintf(buf + n, sizeof buf - n, " ch=%d", (int)c.ch);
-      if ((c.def->flags & OF_SRC) && n < (int)sizeof buf - 120) n += snprintf(buf + n, sizeof buf - n, " src(%zu)=[%s]", c.src.size(), shortText(c.src).c_str());
+      char buf[400];
+      char* p = buf;
+      char* const end = buf + sizeof buf - 1;
+      p = putStr(p, end, c.def->family.data(), c.def->family.size());
+      p = putStr(p, end, " ", 1);
+      p = putStr(p, end, c.def->name.data(), c.def->name.size());
+      p = putStr(p, end, " L=", 3);
+      p = putNum(p, end, L);
+      p = putStr(p, end, " len=", 5);
+      p = putNum(p, end, ref.size());
+      p = putStr(p, end, " [", 2);
+      p = putText(p, end, ref);
+      p = putStr(p, end, "] args=", 7);
+      for (unsigned i = 0; i < c.def->nargs; ++i)
+      {
+         if (i) p = putStr(p, end, ",", 1);
+         p = putNum(p, end, c.a[i]);
+      }
+      if (c.def->flags & OF_CH) { p = putStr(p, end, " ch=", 4); p = putNum(p, end, size_t((unsigned char)c.ch)); }
+      if (c.def->flags & OF_SRC)
+      {
+         p = putStr(p, end, " src(", 5);
+         p = putNum(p, end, c.src.size());
+         p = putStr(p, end, ")=[", 3);
+         p = putText(p, end, c.src);
+         p = putStr(p, end, "]", 1);
+      }
+      *p = 0;
       ctx.prog->descr(buf);
       if (ctx.verbose) printf("CALL %s\n", buf);
+   }
+   /// at most 40 characters of a text, unprintable ones as '?'
+   static char* putText(char* p, char* end, const std::string& t)
+   {
+      const size_t n = std::min<size_t>(t.size(), 40);
+      for (size_t i = 0; i < n && p < end; ++i) { const unsigned char ch = (unsigned char)t[i]; *p++ = (ch >= 32 && ch < 127) ? char(ch) : '?'; }
+      if (t.size() > n) p = putStr(p, end, "...", 3);
+      return p;
    }
 
    // ---------------------------------------------------------------- invariant (C10)
@@ -412,8 +463,8 @@ private:
       std::string got(fs->c_str(), n);
       if (judged)
       {
-         ctx.out->stat("judged_mutations");
-         if (expected.size() < ref.size() + srcText.size() && expected.size() == L) ctx.out->stat("truncations");
+         ++ctx.nJudgedMut;
+         if (expected.size() < ref.size() + srcText.size() && expected.size() == L) ++ctx.nTrunc;
          if (got != expected || fs->length() != expected.size())
          {
             fail("content-mismatch", "got '" + shortText(got) + "' (length " + std::to_string(fs->length()) + "), expected '" + shortText(expected) + "'");
@@ -434,7 +485,7 @@ private:
    template <typename T> void same(const char* what, const T& got, const T& exp)
    {
       if (!ctx.oracle) return;
-      ctx.out->stat("judged_observations");
+      ++ctx.nJudgedObs;
       if (!(got == exp))
       {
          std::ostringstream os;
@@ -445,7 +496,7 @@ private:
    void sameSign(const char* what, int got, int exp)
    {
       if (!ctx.oracle) return;
-      ctx.out->stat("judged_observations");
+      ++ctx.nJudgedObs;
       if (sgn(got) != sgn(exp))
          fail("sign-mismatch", std::string(what) + ": got " + std::to_string(got) + ", std::string gives " + std::to_string(exp));
    }
@@ -453,7 +504,7 @@ private:
    void samePos(const char* what, size_t got, size_t exp)
    {
       if (!ctx.oracle) return;
-      ctx.out->stat("judged_observations");
+      ++ctx.nJudgedObs;
       if (got != exp) fail("value-mismatch", std::string(what) + ": got " + numstr(got) + ", std::string gives " + numstr(exp));
    }
 
@@ -538,7 +589,8 @@ private:
       const size_t n = ref.size();
       const char ch = c.ch;
       if (ch == 0 && (c.def->flags & OF_CH) && (c.def->flags & OF_MUT)) nulStored = true;
-      if ((c.def->flags & OF_SRC) && (c.def->flags & OF_MUT) && c.src.find('\0') != std::string::npos) nulStored = true;
+      srcHasNul = (c.def->flags & OF_SRC) && c.src.find('\0') != std::string::npos;
+      if (srcHasNul && (c.def->flags & OF_MUT)) nulStored = true;
       expectNoThrow = true;
       srcText.clear();
 
@@ -680,6 +732,7 @@ private:
          // (pointer, count): the array has min(count, L+1) readable characters at least
          CStrBlock b(c.src, std::min(a1, L + 1));
          srcText = c.src;
+         if (a1 > c.src.size()) nulStored = true;   // the array [str, str+count) includes the terminator
          std::string e = ref;
          const bool dom = a0 <= n && a1 <= c.src.size();
          if (dom && judging()) e.insert(a0, c.src.c_str(), a1);
@@ -1077,8 +1130,10 @@ private:
       case F_SEARCH_CSTR_CNT:
       {
          const int w = c.def->sub;
-         // find/find_*_of(ptr, pos, count): count describes the array; rfind clamps it to the C string
-         CStrBlock b(c.src, w == 1 ? 0 : std::min(a1, L + 1));
+         // find(ptr, pos, count) never needs more than length() <= L characters of the array, rfind clamps
+         // the count to the C string, find_*_of read the whole array [0, count): it really has that size
+         if (w >= 2 && a1 > std::min<size_t>(8 * L + 64, 4200)) { ctx.out->stat("skipped_unallocatable_array"); break; }
+         CStrBlock b(c.src, w == 1 ? 0 : (w == 0 ? std::min(a1, L + 1) : a1));
          srcText = c.src;
          const size_t got = libSearchN(w, static_cast<const char*>(b.p), a0, a1);
          if (a1 == 0 || c.src.empty()) undoc("search_for_empty_string");
@@ -1108,7 +1163,7 @@ private:
             const bool ne2 = s != *static_cast<const FS*>(fs);
             if (judging())
             {
-               ctx.out->stat("judged_observations", 2);
+               ctx.nJudgedObs += 2;
                if (eq == ne || eq2 == ne2)
                   fail("eq-ne-not-complementary", "(a==b)=" + std::to_string(eq) + " (a!=b)=" + std::to_string(ne) + " (b==a)=" + std::to_string(eq2) + " (b!=a)=" + std::to_string(ne2));
                if (eq != (ref == srcText) || eq2 != eq)
@@ -1139,10 +1194,10 @@ private:
       const size_t n = t.length();
       if (n > L) { fail("invariant-length", std::string(what) + ": length() = " + std::to_string(n)); return; }
       if (t.c_str()[n] != 0) { fail("invariant-nul", std::string(what) + ": no NUL at length() = " + std::to_string(n)); return; }
-      if (!nulStored && strlen(t.c_str()) != n) { fail("invariant-strlen", std::string(what) + ": strlen " + std::to_string(strlen(t.c_str())) + " != length() " + std::to_string(n)); return; }
+      if (!nulStored && !srcHasNul && strlen(t.c_str()) != n) { fail("invariant-strlen", std::string(what) + ": strlen " + std::to_string(strlen(t.c_str())) + " != length() " + std::to_string(n)); return; }
       if (ctx.oracle)
       {
-         ctx.out->stat("judged_mutations");
+         ++ctx.nJudgedMut;
          if (std::string(t.c_str(), n) != expected)
             fail("content-mismatch", std::string(what) + " holds '" + shortText(std::string(t.c_str(), n)) + "', expected '" + shortText(expected) + "'");
       }
@@ -1194,6 +1249,7 @@ private:
       {
          CStrBlock b(c.src, std::min(c.a[2], L + 1));
          srcText = c.src;
+         if (c.a[2] > c.src.size()) nulStored = true;   // the array [str, str+count2) includes the terminator
          dom = dom && c.a[2] <= c.src.size() && c.a[2] > 0;
          if (dom && judging()) e.replace(k1, k2 - k1, c.src.c_str(), c.a[2]);
          retRef(fs->replace(first, last, static_cast<const char*>(b.p), c.a[2]));
@@ -1394,6 +1450,7 @@ private:
       same("it1 == it2", i1 == i2, p1 == p2);
       same("it1 != it2", i1 != i2, p1 != p2);
       same("it < cend()", i1 < k.cend(), true);
+      same("iterator length()", i1.length(), n);
       auto j = i2;
       j -= (p2 - p1);
       same("it -= k", j == i1, true);
@@ -1417,6 +1474,10 @@ private:
       same("crend() - rit", size_t(k.crend() - r1), n - p1);
       same("rit1 < rit2", r1 < r2, p1 < p2);
       same("rit2 >= rit1", r2 >= r1, true);
+      same("rit1 <= rit2", r1 <= r2, true);
+      same("rit2 > rit1", r2 > r1, p1 < p2);
+      same("rit1 != rit2", r1 != r2, p1 != p2);
+      same("reverse iterator length()", r1.length(), n);
       auto rj = r2;
       rj -= (p2 - p1);
       same("rit -= k", rj == r1, true);
@@ -1446,19 +1507,30 @@ private:
       case 10: { auto it = fs->rbegin(); it += v; sink = *it; break; }
       case 11: { auto it = fs->rbegin(); it -= v; sink = *it; break; }
       case 12: { auto it = fs->begin(); it += v; it -= v; it += 1; sink = *it; break; }
-      case 13: { auto it = fs->rbegin(); sink = it[v]; break; }   // throws std::range_error beyond the begin
+      case 13: { if (fs->empty()) break; auto it = fs->rbegin(); sink = it[v]; break; }   // throws std::range_error beyond the begin
       case 14: { auto it = fs->begin(); --it; --it; sink = *it; break; }
       case 15: { auto it = fs->rbegin(); --it; --it; sink = *it; break; }
-      case 16: { auto d = k.cbegin() - k.cend(); sink = char(d); auto e = k.crbegin() - k.crend(); sink = char(e); break; }
-      default: { typename FS::const_iterator it; auto d = it - k.cbegin(); sink = char(d); break; }
+      case 16: { auto d = k.cbegin() - k.cend(); sink = char(d); break; }
+      case 17: { auto e = k.crbegin() - k.crend(); sink = char(e); typename FS::const_reverse_iterator it; auto d = it - k.crbegin(); sink = char(d); break; }
+      case 18: { typename FS::const_iterator it; auto d = it - k.cbegin(); sink = char(d); break; }
+      case 19: { typename FS::iterator it(fs, v); sink = char(it.length()); sink = *it; break; }                 // (object, position) constructor
+      case 20: { typename FS::const_iterator it(nullptr, v); sink = char(it.length()); sink = *it; break; }
+      case 21: { typename FS::reverse_iterator it(fs, v); sink = char(it.length()); sink = *it; break; }
+      default: { typename FS::const_reverse_iterator it(nullptr, v); sink = char(it.length()); sink = *it; break; }
       }
       (void)sink;
    }
 };
 
-Session* make_session_g1(size_t L, Ctx& ctx);
-Session* make_session_g2(size_t L, Ctx& ctx);
-Session* make_session_g3(size_t L, Ctx& ctx);
-Session* make_session_g4(size_t L, Ctx& ctx);
+Session* make_session_g01(size_t L, Ctx& ctx);
+Session* make_session_g02(size_t L, Ctx& ctx);
+Session* make_session_g03(size_t L, Ctx& ctx);
+Session* make_session_g04(size_t L, Ctx& ctx);
+Session* make_session_g05(size_t L, Ctx& ctx);
+Session* make_session_g06(size_t L, Ctx& ctx);
+Session* make_session_g07(size_t L, Ctx& ctx);
+Session* make_session_g08(size_t L, Ctx& ctx);
+Session* make_session_g09(size_t L, Ctx& ctx);
+Session* make_session_g10(size_t L, Ctx& ctx);
 
 }   // namespace fsv
